@@ -552,7 +552,31 @@ def twin_chain(rng, sd, ac, st, cs):
     return (sd, one, st, {}), (sd, two, st, {}), "chain"
 
 
-TWINS = [twin_units, twin_annotations, twin_const_array, twin_uvw, twin_euler_quat, twin_rate_frames, twin_qc_points, twin_chain, twin_int_float, twin_callable]
+def twin_csv(rng, sd, ac, st, cs):
+    """a distribution written to a .csv file (with a unit row, in the other system's unit of length) vs the same table given in line"""
+    units = sd["units"]
+    lu, lf = ("m", 3.28084) if units == "English" else ("ft", 0.3048)
+    ac1, ac2 = copy.deepcopy(ac), copy.deepcopy(ac)
+    d = common.os.path.join(common.REPLAYS, "c06_csv")
+    common.os.makedirs(d, exist_ok=True)
+    for name, w in ac1["wings"].items():
+        ch = w.get("chord", 1.0)
+        if isinstance(ch, float):
+            ch = [[0.0, ch], [1.0, ch]]
+        if not (isinstance(ch, list) and ch and isinstance(ch[0], list)):
+            continue
+        w["chord"] = [[float(r[0]), float(r[1])] for r in ch]
+        fn = common.os.path.join(d, "chord_%s_%d.csv" % (name, rng.randrange(10 ** 6)))
+        with open(fn, "w") as fh:
+            for r in ch:
+                fh.write("%r,%r\n" % (float(r[0]), float(r[1]) / lf))
+            fh.write("-,%s\n" % lu)
+        ac2["wings"][name]["chord"] = fn
+        return (sd, ac1, st, cs), (sd, ac2, st, cs), "csv"
+    return None
+
+
+TWINS = [twin_csv, twin_units, twin_annotations, twin_const_array, twin_uvw, twin_euler_quat, twin_rate_frames, twin_qc_points, twin_chain, twin_int_float, twin_callable]
 
 
 def totals(MX, sd, ac, st, cs):
@@ -589,6 +613,12 @@ def twin_sweep(chk, MX, n):
         if not api.all_finite(ra["forces"]):
             chk.count("twin_base_nonfinite=" + name)   # reported by C12/C04 (reference defaults), not an equivalence failure
             continue
+        if name == "csv":
+            # the same file read first by a scene in the other unit system, in the same session: what a file means depends on the scene that reads it
+            try:
+                totals(MX, dict(B[0], units=("SI" if B[0]["units"] == "English" else "English")), *B[1:])
+            except Exception as e:
+                chk.count("csv-other-system-error=" + type(e).__name__)
         try:
             rb = totals(MX, *B)
         except Exception as e:
@@ -598,10 +628,10 @@ def twin_sweep(chk, MX, n):
         if name == "units":
             bad = compare_units(ra, rb)
         else:
-            tolr = 5e-6 if name in ("annotations",) else 2e-6
+            tolr = 5e-6 if name in ("annotations", "csv") else 2e-6
             # (annotated values go through the code's unit table, whose constants carry seven digits: a quantity that is small through
             # cancellation inherits that error relative to the largest load of its kind, not to itself)
-            bad = api.compare(ra, rb, rtol=tolr, atol=2e-7, scale_atol=5e-6 if name in ("annotations",) else 2e-8)
+            bad = api.compare(ra, rb, rtol=tolr, atol=2e-7, scale_atol=5e-6 if name in ("annotations", "csv") else 2e-8)
         chk.case(dict(twin=name, units=units, n_wings=len(ac["wings"]), digest=common.hashlib.sha1(json.dumps([A, B], sort_keys=True, default=str).encode()).hexdigest()[:10]), nontrivial=True)
         chk.count("twin=" + name)
         per[name] = per.get(name, 0) + 1
